@@ -4,7 +4,9 @@ package main
 // types are document events, which functions are stream-observer handlers, …).
 
 import (
+	"go/constant"
 	"go/types"
+	"sort"
 	"strings"
 
 	"golang.org/x/tools/go/ssa"
@@ -134,8 +136,8 @@ func (w *World) offsetMapMutations() []mapMutation {
 	return out
 }
 
-// positionWriterFuncs: the functions holding a mutation of a non-fresh offset map.
-func (w *World) positionWriterFuncs() []*ssa.Function {
+// positionWriterCores: the functions holding a mutation of a non-fresh offset map.
+func (w *World) positionWriterCores() []*ssa.Function {
 	seen := map[*ssa.Function]bool{}
 	var out []*ssa.Function
 	for _, m := range w.offsetMapMutations() {
@@ -148,6 +150,87 @@ func (w *World) positionWriterFuncs() []*ssa.Function {
 		}
 	}
 	return out
+}
+
+// positionWriterFuncs: the position writers as the rest of the module sees them. Normally that is the function that
+// holds the store (it takes the dirty flag). When that function takes no flag and is called only by methods of its own
+// type that hand it their own (vbID, offset) — `setOffset` / `setDirtyOffset` over a shared `storeOffset` — the writer
+// is split by mode: each of those methods is a writer whose dirty flag is a constant, true for the one that marks.
+func (w *World) positionWriterFuncs() []*ssa.Function {
+	if w.pwCache != nil {
+		return w.pwCache
+	}
+	w.pwMode = map[*ssa.Function]bool{}
+	w.pwCore = map[*ssa.Function]*ssa.Function{}
+	var out []*ssa.Function
+	for _, core := range w.positionWriterCores() {
+		in := w.writerInputsRaw(core)
+		if in.dirty != nil || in.vb == nil || in.off == nil || core.Signature.Recv() == nil {
+			out = append(out, core)
+			continue
+		}
+		var modes []*ssa.Function
+		ok := true
+		sites := w.callersOf(core)
+		for _, cs := range sites {
+			e := rootFn(cs.Fn)
+			ein := w.writerInputsRaw(e)
+			if cs.Fn != e || e.Signature.Recv() == nil || recvTypeName(e.Signature.Recv().Type()) != recvTypeName(core.Signature.Recv().Type()) || ein.vb == nil || ein.off == nil || ein.dirty != nil {
+				ok = false
+				break
+			}
+			if w.Origin(argOfVParam(cs.Call.Common(), core, *in.vb)) != ein.vb.Term() || w.Origin(argOfVParam(cs.Call.Common(), core, *in.off)) != ein.off.Term() {
+				ok = false
+				break
+			}
+			dup := false
+			for _, m := range modes {
+				if m == e {
+					dup = true
+				}
+			}
+			if dup {
+				ok = false // one call of the core per mode
+				break
+			}
+			modes = append(modes, e)
+		}
+		if !ok || len(modes) < 2 {
+			out = append(out, core)
+			continue
+		}
+		for _, e := range modes {
+			marks := false
+			for _, f := range withAnon(e) {
+				allInstrs(f, func(x ssa.Instruction) {
+					if cc := callOf(x); cc != nil {
+						if m, recv := csmapMethod(cc); m != "" && csmapMutators[m] && !w.isOffsetMap(recv.Type()) {
+							marks = true
+						}
+					}
+					if fw, _, val := flagWrite(x); fw != nil && w.Origin(val) == "const(true)" {
+						marks = true
+					}
+				})
+			}
+			w.pwMode[e] = marks
+			w.pwCore[e] = core
+			out = append(out, e)
+		}
+	}
+	sort.Slice(out, func(i, j int) bool { return fname(out[i]) < fname(out[j]) })
+	w.pwCache = out
+	return out
+}
+
+// writerModeConst: for a writer that is one mode of a split writer, the dirty flag it stands for, as a constant.
+func (w *World) writerModeConst(pw *ssa.Function) (ssa.Value, bool) {
+	w.positionWriterFuncs()
+	m, ok := w.pwMode[pw]
+	if !ok {
+		return nil, false
+	}
+	return ssa.NewConst(constant.MakeBool(m), types.Typ[types.Bool]), true
 }
 
 // freshMapIn: receiver value resolves (through single-store cells and closure bindings) to a map created
@@ -543,7 +626,9 @@ func (w *World) funcTableOf(v ssa.Value) []*ssa.Function {
 // dirty flag (bool) — whether they are parameters or fields of a parameter bundle.
 type pwInputs struct{ vb, off, dirty *vparam }
 
-func (w *World) writerInputs(pw *ssa.Function) pwInputs {
+func (w *World) writerInputs(pw *ssa.Function) pwInputs { return w.writerInputsRaw(pw) }
+
+func (w *World) writerInputsRaw(pw *ssa.Function) pwInputs {
 	var r pwInputs
 	for _, v := range vparams(pw) {
 		v := v
@@ -570,6 +655,8 @@ func (w *World) writerArgs(cc *ssa.CallCommon, pw *ssa.Function) (vb, off, dirty
 	}
 	if in.dirty != nil {
 		dirty = argOfVParam(cc, pw, *in.dirty)
+	} else if k, isMode := w.writerModeConst(pw); isMode {
+		dirty = k // one mode of a split writer: the flag is what the mode stands for
 	}
 	return
 }
